@@ -235,7 +235,97 @@ func orDash(ss []string) string {
 	return strings.Join(ss, " ")
 }
 
+// finalNil: a pipe that had client-side caching and ended, for whatever reason, delivered exactly
+// one trailing nil after its last key callback
+func (c *Ctx) finalNil(key, op string, got []string, invs int) {
+	if len(got) != invs+1 || got[len(got)-1] != "nil" {
+		c.Fail(key, op, fmt.Sprintf("the pipe ended after %d invalidation pushes but the callback log is %v: want them followed by exactly one nil", invs, got))
+	}
+}
+
+// lifetimeEpisodes: pipes retired by ClientOption.ConnLifetime (lftmTimer -> pipe.expired, exit error
+// errConnExpired) with OnInvalidations, and with a dedicated client's SetOnInvalidations on a freshly
+// dialled pool wire (its lifetime timer runs while it is held).
+func (c *Ctx) lifetimeEpisodes() {
+	ctx := context.Background()
+	for ep := 0; ep < 3; ep++ {
+		srv := fakeredis.New(fakeredis.Options{})
+		mk := func(o rueidis.ClientOption) rueidis.Client {
+			o.InitAddress, o.DialCtxFn, o.ForceSingleClient, o.PipelineMultiplex, o.DisableRetry = []string{"fake:1"}, srv.Dial, true, -1, true
+			cl, err := rueidis.NewClient(o)
+			if err != nil {
+				panic(err)
+			}
+			return cl
+		}
+		var optLog, hookLog invLog
+		life := time.Duration(40+20*ep) * time.Millisecond
+		w := mk(rueidis.ClientOption{DisableCache: true})                              // connection 1: the writer
+		a := mk(rueidis.ClientOption{OnInvalidations: optLog.add, ConnLifetime: life}) // connection 2
+		a.DoCache(ctx, a.B().Get().Key("lk").Cache(), time.Minute)
+		a.DoCache(ctx, a.B().Get().Key("lk2").Cache(), time.Minute)
+		w.Do(ctx, w.B().Set().Key("lk").Value("1").Build())
+		if ep == 1 {
+			w.Do(ctx, w.B().Flushall().Build())
+		}
+		if !srv.WaitFor(3*time.Second, func() bool { ci, _ := srv.Conn(2); return ci.Closed }) {
+			c.Fail("inval:conn-lifetime-not-applied", "lifetime", "the connection was not retired after ConnLifetime")
+		}
+		toks, invs := frameTokens(srv.ConnOuts(2))
+		optLog.waitLen(invs + 1)
+		time.Sleep(500 * time.Microsecond)
+		got := optLog.snap()
+		line := "opt=1 " + strings.Join(append(toks, "x:lifetime"), " ")
+		c.Emit("e2e "+line, orDash(got), true)
+		c.Emit("!e2e "+line, orDash(got), false)
+		c.finalNil("inval:missing-final-nil:conn-lifetime", line, got, invs)
+		// entries cached on the retired pipe are not served afterwards: the next DoCache asks the server on a new connection
+		conns := srv.NumConns()
+		res := a.DoCache(ctx, a.B().Get().Key("lk2").Cache(), time.Minute)
+		if res.IsCacheHit() || srv.NumConns() == conns {
+			c.Fail("inval:cache-served-after-teardown", line, fmt.Sprintf("DoCache after the pipe was retired: cache hit=%v, new connection=%v", res.IsCacheHit(), srv.NumConns() != conns))
+		}
+		c.Hit("exit:conn-lifetime")
+
+		// dedicated SetOnInvalidations on a pool wire of a client with ConnLifetime: the pool stops the
+		// lifetime timer while a wire is acquired (pool.Acquire -> StopTimer), so a held wire is not
+		// retired; release clears the hook, the idle wire is then retired in the pool and the cleared
+		// hook must not be called any more
+		d := mk(rueidis.ClientOption{DisableCache: true, ConnLifetime: life})
+		dc, release := d.Dedicate()
+		dc.Do(ctx, dc.B().ClientTracking().On().Build())
+		conn := srv.NumConns()
+		start := len(srv.ConnOuts(conn))
+		errCh := dc.SetOnInvalidations(hookLog.add)
+		dc.Do(ctx, dc.B().Get().Key("hk").Build())
+		w.Do(ctx, w.B().Set().Key("hk").Value("1").Build())
+		dc.Do(ctx, dc.B().Ping().Build())
+		outs := srv.ConnOuts(conn)
+		pre, _ := frameTokens(outs[:start])
+		post, invs2 := frameTokens(outs[start:])
+		hookLog.waitLen(invs2)
+		release()
+		if !srv.WaitFor(3*time.Second, func() bool { ci, _ := srv.Conn(conn); return ci.Closed }) {
+			c.Fail("inval:conn-lifetime-not-applied", "lifetime dedicated", "the released wire was not retired after ConnLifetime in the pool")
+		}
+		time.Sleep(500 * time.Microsecond)
+		hline := strings.Join(append(append(append(pre, "hook1"), post...), "clear", "x:lifetime"), " ")
+		c.Emit("e2ehook "+hline, orDash(hookLog.snap()), true)
+		select {
+		case <-errCh:
+		case <-time.After(time.Second):
+			c.Fail("inval:hook-channel-not-closed", "e2ehook lifetime", "error channel of SetOnInvalidations not closed after release")
+		}
+		release()
+		d.Close()
+		a.Close()
+		w.Close()
+		srv.Close()
+	}
+}
+
 func (c *Ctx) invalE2E() {
+	c.lifetimeEpisodes()
 	ctx := context.Background()
 	for ep := 0; ep < c.N; ep++ {
 		srv := fakeredis.New(fakeredis.Options{InvalidateAfterReply: c.Rng.IntN(2) == 0})
@@ -271,14 +361,24 @@ func (c *Ctx) invalE2E() {
 			}
 		}
 		a.Do(ctx, a.B().Ping().Build())
-		srv.Kill(1)
+		// the pipe ends because the server kills the connection, or because the client is closed
+		exit := "x"
+		if c.Rng.IntN(2) == 0 {
+			srv.Kill(1)
+		} else {
+			exit = "x:close"
+			a.Close()
+			c.Hit("exit:client-close")
+		}
+		srv.WaitFor(3*time.Second, func() bool { ci, _ := srv.Conn(1); return ci.Closed })
 		toks, invs := frameTokens(srv.ConnOuts(1))
 		optLog.waitLen(invs + 1)
 		time.Sleep(200 * time.Microsecond)
 		got := optLog.snap()
-		line := "opt=1 " + strings.Join(append(toks, "x"), " ")
+		line := "opt=1 " + strings.Join(append(toks, exit), " ")
 		c.Emit("e2e "+line, orDash(got), invs > 0)
 		c.Emit("!e2e "+line, orDash(got), false)
+		c.finalNil("inval:missing-final-nil:"+map[string]string{"x": "server-kill", "x:close": "client-close"}[exit], line, got, invs)
 		a.Close()
 
 		// dedicated session with SetOnInvalidations on connection 3, then release: tracking must be off before reuse
